@@ -4,7 +4,8 @@
 (*                                                                         *)
 (* An invocation is  [cmd, args, input, sink]  (args: positional arguments *)
 (* and options in a canonical order; input: the primary input; sink:       *)
-(* "stdout" or "file").  Its KEY is everything that may influence the      *)
+(* "stdout" or "file"; the extension of the file name, which selects the   *)
+(* output format, counts as part of the invocation).  Its KEY is everything that may influence the *)
 (* output: cmd, args and input - i.e. the whole invocation except the sink.*)
 (* Ref(key) is what the command prints and how it exits without a cache    *)
 (* (learned from --no-cache runs).                                         *)
